@@ -1,12 +1,14 @@
 (* C09 - printing then parsing returns the same term, atom or clause.
-   Property theorems only; the proofs are in Serde/{Escape,Lexer,Parse}Proofs.v.
+   Property theorems only; the proofs are in Serde/{Escape,Lexer,Parse,ParseTok,ParseConst,
+   ParseAtom,ParseToy}Proofs.v.
    Models: Serde/Escape.v (ast/serde.go), Serde/Lexer.v (the lexer rules of
    parse/gen/Mangle.g4), Serde/Parse.v (rule `term` with the visitors of
    parse/parse.go and the constructor cases of functional.EvalApplyFn),
    Term/Print.v (Constant.String, owned by C08). Bytes are integers 0..255. *)
 From Coq Require Import List ZArith Bool String.
 From MV Require Import Serde.Escape Serde.EscapeProofs Serde.Lexer Serde.LexerProofs Serde.Parse Serde.ParseProofs.
-From MV Require Import Term.Expr.
+From MV Require Import Serde.ParseTokProofs Serde.ParseConstProofs Serde.ParseAtomProofs Serde.ParseToyProofs.
+From MV Require Import Term.Expr Term.Atom Term.PrintInjProofs.
 Import ListNotations.
 Open Scope Z_scope.
 
@@ -54,24 +56,93 @@ Theorem lex_bytestring_exact :
 Proof. exact next_token_bytestring. Qed.
 Print Assumptions lex_bytestring_exact.
 
-(* ---- print, then parse ------------------------------------------------------ *)
-(* Full statement (not proved beyond the two leaf kinds below):
+(* ---- print, then parse ------------------------------------------------------
+   Library code enters through six oracles: fmt_float / fmt_time / fmt_dur
+   (strconv.FormatFloat 'f' -1, time.Format RFC3339Nano, time.Duration.String) and
+   parse_float / parse_time / parse_dur (strconv.ParseFloat, time.Parse RFC3339,
+   time.ParseDuration). Laws assumed about them (sampled on the real library by every
+   Go round trip of the check): the parser reads back what the formatter wrote; the
+   repaired FormatFloat64 writes a finite float as -?digits.digits; the texts of times
+   and durations contain no quote, backslash or carriage return.
+   Domain: [wf] (built by the public constructors), [valid] (lexer-valid names, valid
+   UTF-8 strings, bytes 0..255, finite floats), [canon] (every map / struct lists its
+   entries by strictly descending key hash: the order ast.Map / ast.Struct leave them in;
+   without it the text parses to the re-sorted constant, see map_order_round_trip_refuted).
+   Follow set: the printed constant is followed by nothing or by a character that cannot
+   occur in a name or number (C08's condition: not a letter, digit, . - _ ~ % /).
+   Fuel: that of parse_term_all, 2 * length of the text + 2, or more. *)
 
-   parse_print_const : forall parse_float parse_time parse_dur fmt_float fmt_time fmt_dur,
-     (forall b, float_special b = false -> parse_float (format_float64 fmt_float b) = Some b /\ the text is -?digits.digits) ->
-     (forall n, parse_time (fmt_time n) = Some n /\ no quote or backslash in fmt_time n) ->
-     (forall n, parse_dur (fmt_dur n) = Some n /\ no quote or backslash in fmt_dur n) ->
-     forall c rest, wf c = true -> valid c = true -> map / struct keys of c sorted by distinct hashes ->
-     follow rest (rest is empty or starts with one of , ) ] } or a blank) ->
-     exists t, parse_term parse_float (fuel_for (print .. c ++ rest)) (print .. c ++ rest) = POk t rest
-               /\ eval parse_time parse_dur t = Some c.
-   parse_print_atom, parse_print_clause: the same for Atom.String and Clause.String
-   (the clause level is not modelled in Coq).
+(* every kind of constant - names, strings, byte strings, numbers (every int64), floats,
+   times, durations, pairs, lists, maps, structs - at any nesting depth *)
+Theorem parse_print_const :
+  forall (parse_float parse_time parse_dur : list Z -> option Z) (fmt_float fmt_time fmt_dur : Z -> list Z),
+  (forall b, float_special b = false -> parse_float (format_float64 fmt_float b) = Some b) ->
+  (forall b, float_special b = false ->
+     exists sign ip fp, format_float64 fmt_float b = sign ++ ip ++ 46 :: fp /\
+       (sign = [] \/ sign = [45]) /\ ip <> [] /\ fp <> [] /\
+       forallb is_digit ip = true /\ forallb is_digit fp = true) ->
+  (forall n, int64_ok n = true -> ~ In 34 (fmt_time n) /\ ~ In 92 (fmt_time n) /\ ~ In 13 (fmt_time n)) ->
+  (forall n, int64_ok n = true -> ~ In 34 (fmt_dur n) /\ ~ In 92 (fmt_dur n) /\ ~ In 13 (fmt_dur n)) ->
+  (forall n, int64_ok n = true -> parse_time (fmt_time n) = Some n) ->
+  (forall n, int64_ok n = true -> parse_dur (fmt_dur n) = Some n) ->
+  forall (c : const) (rest : list Z) (fuel : nat),
+  wf c = true -> valid c = true -> canon c = true ->
+  match rest with [] => True | x :: _ => constant_char x || (x =? 47) = false end ->
+  (fuel_for (print fmt_float fmt_time fmt_dur c ++ rest) <= fuel)%nat ->
+  exists t, parse_term parse_float fuel (print fmt_float fmt_time fmt_dur c ++ rest) = POk t rest
+            /\ eval parse_time parse_dur t = Some c.
+Proof. exact parse_print_const_lemma. Qed.
+Print Assumptions parse_print_const.
 
-   The unproved part (numbers, names, floats, times, durations, nested shapes, atoms) is covered on every
-   run by the model round trip inside Coq (Run.C09.judge, cases KRound / KAtom: print, parse, evaluate, compare)
-   and by the Go round trip. *)
-Theorem parse_print_const_partial :
+(* the same through parse_term_all (what the correspondence check runs): the whole text *)
+Theorem parse_all_print_const :
+  forall (parse_float parse_time parse_dur : list Z -> option Z) (fmt_float fmt_time fmt_dur : Z -> list Z),
+  (forall b, float_special b = false -> parse_float (format_float64 fmt_float b) = Some b) ->
+  (forall b, float_special b = false ->
+     exists sign ip fp, format_float64 fmt_float b = sign ++ ip ++ 46 :: fp /\
+       (sign = [] \/ sign = [45]) /\ ip <> [] /\ fp <> [] /\
+       forallb is_digit ip = true /\ forallb is_digit fp = true) ->
+  (forall n, int64_ok n = true -> ~ In 34 (fmt_time n) /\ ~ In 92 (fmt_time n) /\ ~ In 13 (fmt_time n)) ->
+  (forall n, int64_ok n = true -> ~ In 34 (fmt_dur n) /\ ~ In 92 (fmt_dur n) /\ ~ In 13 (fmt_dur n)) ->
+  (forall n, int64_ok n = true -> parse_time (fmt_time n) = Some n) ->
+  (forall n, int64_ok n = true -> parse_dur (fmt_dur n) = Some n) ->
+  forall c : const, wf c = true -> valid c = true -> canon c = true ->
+  exists t, parse_term_all parse_float (print fmt_float fmt_time fmt_dur c) = POk t []
+            /\ eval parse_time parse_dur t = Some c.
+Proof. exact parse_all_print_const. Qed.
+Print Assumptions parse_all_print_const.
+
+(* the six laws are satisfiable together (decimal formatters and readers), and the domain
+   contains every kind of constant, nested, with the sign after a bracket (N18), MinInt64,
+   a carriage return (F5), multi-byte runes, a map inside a struct inside a map *)
+Example parse_print_const_nonvacuous :
+  (exists (parse_float parse_time parse_dur : list Z -> option Z) (fmt_float fmt_time fmt_dur : Z -> list Z),
+    (forall b, float_special b = false -> parse_float (format_float64 fmt_float b) = Some b) /\
+    (forall b, float_special b = false ->
+       exists sign ip fp, format_float64 fmt_float b = sign ++ ip ++ 46 :: fp /\
+         (sign = [] \/ sign = [45]) /\ ip <> [] /\ fp <> [] /\
+         forallb is_digit ip = true /\ forallb is_digit fp = true) /\
+    (forall n, int64_ok n = true -> ~ In 34 (fmt_time n) /\ ~ In 92 (fmt_time n) /\ ~ In 13 (fmt_time n)) /\
+    (forall n, int64_ok n = true -> ~ In 34 (fmt_dur n) /\ ~ In 92 (fmt_dur n) /\ ~ In 13 (fmt_dur n)) /\
+    (forall n, int64_ok n = true -> parse_time (fmt_time n) = Some n) /\
+    (forall n, int64_ok n = true -> parse_dur (fmt_dur n) = Some n)) /\
+  let c := build (EMap [(EName (bs "/a/b-1"), EList [ENum (-9223372036854775808); EFloat 4607182418800017408; EList []]);
+                        (EStr [104; 195; 169; 34; 13; 240; 159; 152; 128], EPair (ETime 0) (EDur 5));
+                        (EBytes [0; 34; 200; 92], EStruct [(EName (bs "/k"), EMap [(ENum (-1), EName (bs "/x"))]);
+                                                           (EName (bs "/l"), EMap [])])]) in
+  wf c = true /\ valid c = true /\ canon c = true /\
+  (exists t, parse_term_all toy_parse_float (print toy_float print_number print_number c) = POk t []
+             /\ eval toy_parse_int toy_parse_int t = Some c).
+Proof.
+  split.
+  - exists toy_parse_float, toy_parse_int, toy_parse_int, toy_float, print_number, print_number.
+    destruct toy_parse_laws as (A & B & C & D). repeat split; try assumption; apply C; assumption.
+  - vm_compute. repeat split. eexists. split; reflexivity.
+Qed.
+
+(* string and byte-string constants need no condition on what follows and fuel 1
+   (the former parse_print_const_partial) *)
+Theorem parse_print_string_bytes :
   forall (parse_float : list Z -> option Z) (fmt_float fmt_time fmt_dur : Z -> list Z)
          (f : nat) (s rest : list Z),
   Forall (fun c => 0 <= c < 256) s ->
@@ -88,7 +159,64 @@ Proof.
   - intros e He. exact (parse_print_string_lemma pf ff ft fd f s e rest Hb He).
   - exact (parse_print_bytes_lemma pf ff ft fd f s rest Hb).
 Qed.
-Print Assumptions parse_print_const_partial.
+Print Assumptions parse_print_string_bytes.
+
+(* ---- atoms -------------------------------------------------------------------
+   Atom.String of NewAtom(sym, args): the predicate name is one NAME token
+   ([pred_lex_valid]: 'a'..'z' ( NAME_CHAR | '.' NAME_CHAR )*, not a keyword), every
+   argument is a constant of the domain above or a variable that is one VARIABLE token
+   ([arg_ok]; [var_lex_valid]: '_' or 'A'..'Z' ( LETTER | DIGIT )*, not Package / Use / Decl).
+   The parser returns sym(l) with one parsed argument per printed one: the variable
+   itself, or a constructor expression that evaluates to the constant. Any text may
+   follow the closing parenthesis. *)
+Theorem parse_print_atom :
+  forall (parse_float parse_time parse_dur : list Z -> option Z) (fmt_float fmt_time fmt_dur : Z -> list Z),
+  (forall b, float_special b = false -> parse_float (format_float64 fmt_float b) = Some b) ->
+  (forall b, float_special b = false ->
+     exists sign ip fp, format_float64 fmt_float b = sign ++ ip ++ 46 :: fp /\
+       (sign = [] \/ sign = [45]) /\ ip <> [] /\ fp <> [] /\
+       forallb is_digit ip = true /\ forallb is_digit fp = true) ->
+  (forall n, int64_ok n = true -> ~ In 34 (fmt_time n) /\ ~ In 92 (fmt_time n) /\ ~ In 13 (fmt_time n)) ->
+  (forall n, int64_ok n = true -> ~ In 34 (fmt_dur n) /\ ~ In 92 (fmt_dur n) /\ ~ In 13 (fmt_dur n)) ->
+  (forall n, int64_ok n = true -> parse_time (fmt_time n) = Some n) ->
+  (forall n, int64_ok n = true -> parse_dur (fmt_dur n) = Some n) ->
+  forall (sym : list Z) (args : list bterm) (rest : list Z) (fuel : nat),
+  pred_lex_valid sym = true ->
+  forallb (fun a => match a with
+                    | TConst c => wf c && valid c && canon c
+                    | TVar x => var_lex_valid x
+                    end) args = true ->
+  (fuel_for (print_atom fmt_float fmt_time fmt_dur (new_atom sym args) ++ rest) <= fuel)%nat ->
+  exists l, parse_term parse_float fuel (print_atom fmt_float fmt_time fmt_dur (new_atom sym args) ++ rest)
+            = POk (PApply sym l) rest
+            /\ Forall2 (fun a p => match a with
+                                   | TConst c => eval parse_time parse_dur p = Some c
+                                   | TVar x => p = PVar x
+                                   end) args l.
+Proof. exact parse_print_atom_lemma. Qed.
+Print Assumptions parse_print_atom.
+
+Example parse_print_atom_nonvacuous :
+  let args := [TConst (build (EList [ENum (-3); EStr (bs "x,y)")])); TVar (bs "X1"); TVar (bs "_");
+               TConst (mk_name (bs "/a")); TConst (build (EMap [(ENum 1, ETime 7); (ENum 2, EFloat 0)]))] in
+  pred_lex_valid (bs "foo.bar:baz_1") = true /\
+  forallb (fun a => match a with
+                    | TConst c => wf c && valid c && canon c
+                    | TVar x => var_lex_valid x
+                    end) args = true /\
+  (exists l, parse_term_all toy_parse_float (print_atom toy_float print_number print_number (new_atom (bs "foo.bar:baz_1") args))
+             = POk (PApply (bs "foo.bar:baz_1") l) [] /\ length l = 5%nat).
+Proof. vm_compute. repeat split. eexists. split; reflexivity. Qed.
+
+(* ---- the clause level ----------------------------------------------------------
+   Not proved: parse_print_clause (Clause.String then parse.Clause). The clause level -
+   negated atoms, (in)equalities, comparisons, transforms, temporal annotations - has no
+   Coq model (Serde/Parse.v stops at rule `term`); the missing pieces are a model of
+   Clause.String / the rules `clause`, `literalOrFml`, `temporalAnnotation`, `transform`
+   with their visitors, and on top of it the lemma
+     parse_clause fuel (print_clause cl ++ rest) = Some (cl', rest) /\ clause_denotes cl cl'.
+   The clause round trip is covered on every run by the Go round trip (parse.Clause /
+   parse.Unit on generated clauses, compared field by field). *)
 
 (* ---- what failed before the fixes ------------------------------------------- *)
 (* F5: Escape before the fix wrote a carriage return as it is; Unescape reads it as a newline *)
@@ -118,3 +246,16 @@ Theorem bracket_minus_refuted :
   = POk (PApply s_fn_list [PConst (mk_number (-1)); PConst (mk_number 2)]) [].
 Proof. split; vm_compute; reflexivity. Qed.
 Print Assumptions bracket_minus_refuted.
+
+(* a map whose cells are not in the order of ast.Map (built with MapCons by hand: well-formed,
+   valid, not [canon]) prints to a text that parses and evaluates to the re-sorted map *)
+Theorem map_order_round_trip_refuted :
+  exists c : const, wf c = true /\ valid c = true /\ canon c = false /\
+    exists t c', parse_term_all (fun _ => None) (print (fun _ => []) (fun _ => []) (fun _ => []) c) = POk t [] /\
+                 eval (fun _ => None) (fun _ => None) t = Some c' /\ c' <> c /\ canon c' = true.
+Proof.
+  exists (map_cons (mk_number 1) (mk_name (bs "/x")) (map_cons (mk_number 2) (mk_name (bs "/y")) map_nil)).
+  vm_compute. repeat split. eexists. eexists. split; [reflexivity|]. split; [reflexivity|]. split; [|reflexivity].
+  intro H. discriminate H.
+Qed.
+Print Assumptions map_order_round_trip_refuted.
